@@ -54,10 +54,17 @@ def new_year_variants(hist: History) -> List[Tuple[History, Dict[str, Any], str]
     return out
 
 
+# another asset of the same run, computed first with the same engine and method objects (as rp2_main does); its lots sit on the same spreadsheet
+# rows as the explored asset's but rank differently by price and time, and its disposals make the method select (and remember) them
+PRELUDE = ((H.B(3, 1), "="), (H.B(1, 2), "d"), (H.E(2, 1), "d"), (H.S(2), "d"), (H.B(2, 1), "d"), (H.S(1), "d"))
+
+
 def deviations(hist: History, max_dev: Any) -> List[Tuple[History, Dict[str, Any], str]]:
     """All variants of hist with 1..max_dev deviations from the defaults (SELL, UTC, integer amounts)."""
     if max_dev == "newyear":
         return new_year_variants(hist)
+    if max_dev == "prelude":
+        return [(hist, {"scale": 1, "prelude": H.materialize(PRELUDE)}, "another asset computed first with the same engine")]
     single: List[Tuple[str, Any]] = []
     for i, item in enumerate(hist):
         sym = item[0]
@@ -224,6 +231,10 @@ FE_FIRST = [s for s in FE_SYMBOLS if s[0] in ("B", "E")]
 CONFIG_SCHEDULE_HISTORY: History = ((H.B(2, 2), "="), (H.B(3, 2), "d"), (H.B(1, 2), "d"), (H.S(1), "d"), (H.S(1), "y"), (H.S(1), "y"))
 
 
+HEAVY_PHASES = ("single methods", "three-year schedules", "1 deviation", "2 deviations", "two-year schedules across New Year, one transaction in another UTC offset",
+                "amount scales", "one transaction in another UTC offset", "two-year schedules")
+
+
 def plan(tier: str) -> List[Dict[str, Any]]:
     """List of exploration phases: each is enumerated level by level."""
     singles = single_schedules()
@@ -237,6 +248,7 @@ def plan(tier: str) -> List[Dict[str, Any]]:
             {"name": "sheet order reversed", "schedules": singles, "steps": ("=", "d"), "depth": 3, "dev": 0, "group": 4, "row_order": "reverse"},
             {"name": "two-year schedules across New Year, one transaction in another UTC offset", "schedules": two, "steps": ("=", "d"), "depth": 3, "dev": "newyear", "group": 3,
              "from_depth": 2},
+            {"name": "another asset computed first with the same engine", "schedules": singles, "steps": ("=", "d"), "depth": 3, "dev": "prelude", "group": 2, "from_depth": 2},
             {"name": "steps of 250 ms (same second), sheet order reversed", "schedules": singles, "steps": ("ms", "d"), "depth": 3, "dev": 0, "group": 4, "row_order": "reverse"},
             {"name": "front end: crypto-fee acquisitions through parse_ods", "schedules": singles, "steps": ("=", "d"), "depth": 3, "dev": "front", "group": 4, "symbols": "fe"},
             {"name": "front end, sheet order reversed", "schedules": singles, "steps": ("=", "d"), "depth": 3, "dev": "front", "group": 4, "symbols": "fe", "row_order": "reverse"},
@@ -251,6 +263,7 @@ def plan(tier: str) -> List[Dict[str, Any]]:
         {"name": "sheet order reversed, schedules", "schedules": two, "steps": ("=", "d", "y"), "depth": 3, "dev": 0, "group": 4, "row_order": "reverse"},
         {"name": "two-year schedules across New Year, one transaction in another UTC offset", "schedules": two, "steps": ("=", "d"), "depth": 4, "dev": "newyear", "group": 2,
          "from_depth": 2},
+        {"name": "another asset computed first with the same engine", "schedules": singles + two, "steps": ("=", "d"), "depth": 4, "dev": "prelude", "group": 2, "from_depth": 2},
         {"name": "steps of 250 ms (same second), sheet order reversed", "schedules": singles, "steps": ("ms", "d"), "depth": 4, "dev": 0, "group": 4, "row_order": "reverse"},
         {"name": "front end: crypto-fee acquisitions through parse_ods", "schedules": singles + two, "steps": ("=", "d", "y"), "depth": 4, "dev": "front", "group": 2, "symbols": "fe"},
         {"name": "front end, sheet order reversed", "schedules": singles, "steps": ("=", "d"), "depth": 4, "dev": "front", "group": 2, "symbols": "fe", "row_order": "reverse"},
@@ -262,8 +275,10 @@ def main(tier: str, budget_s: Optional[float] = None) -> int:
     budget = budget_s or (240 if tier == "quick" else 3300)
     deadline = t0 + budget
     phases = plan(tier)
-    total, info, complete = run_phases([ph for ph in phases if ph.get("symbols") != "fe"], generic_worker, FIRST, SYMBOLS, EXTRA, deadline, __name__)
-    t2, i2, c2 = run_phases([ph for ph in phases if ph.get("symbols") == "fe"], generic_worker, FE_FIRST, FE_SYMBOLS, EXTRA, deadline, __name__)
+    # cheap phases first, the big trees last: if the budget runs out, it cuts into depth, not into whole dimensions
+    total, info, complete = run_phases([ph for ph in phases if ph.get("symbols") == "fe"], generic_worker, FE_FIRST, FE_SYMBOLS, EXTRA, deadline, __name__)
+    main_phases = sorted([ph for ph in phases if ph.get("symbols") != "fe"], key=lambda ph: (ph["name"] in HEAVY_PHASES, ))
+    t2, i2, c2 = run_phases(main_phases, generic_worker, FIRST, SYMBOLS, EXTRA, deadline, __name__)
     total.merge(t2)
     info += i2
     complete = complete and c2
